@@ -122,7 +122,14 @@ def impl(case):
             if all(float(v).is_integer() for v in data):
                 darr = darr.astype("int64" if len(data) % 2 else "int16")      # elevations / counts: the reduction must not be truncated
             ce, cn = np.array(es), np.array(ns)
-            g = vd.KNeighbors(k=k, reduction=REDS[red]).fit((ce, cn), darr)
+            g = vd.KNeighbors(k=k, reduction=REDS[red])
+            if (len(es) + k) % 3 == 0:
+                # history: the same object was fitted before, elsewhere, to a handful of points (possibly fewer than k: fitting alone is accepted)
+                m0 = 1 + (len(es) % 3)
+                g.fit((np.arange(m0) * 7.5 - 100.0, np.arange(m0) * -2.5 + 40.0), np.arange(m0) * 1.0 + 0.5)
+            g.fit((ce, cn), darr)
+            if g.k != k:
+                raise RuntimeError(f"hyper-parameter k changed from {k} to {g.k}")
             # the caller goes on using its own arrays after the fit (in place): the fitted model must not follow them
             darr[...] = 0
             ce += 1000.0
